@@ -213,3 +213,20 @@ Definition NoWindowCollision (weights : list N) (h16 : N -> N -> N) (mine peer :
     | Some hp => hm <> hp -> h16 i hm <> h16 i hp
     | None => h16 i hm <> 0
     end.
+
+(* decidable forms of two hypotheses (used for the concrete examples) *)
+Definition no_window_collision_b (weights : list N) (h16 : N -> N -> N) (mine peer : chain) : bool :=
+  let src := gen_src (lc_at peer) weights (rnd10 (tip_id peer)) in
+  forallb (fun ia =>
+             match lc_at mine (snd ia) with
+             | None => true
+             | Some hm =>
+                 match nth (N.to_nat (fst ia)) src None with
+                 | Some hp => (hm =? hp) || negb (h16 (fst ia) hm =? h16 (fst ia) hp)
+                 | None => negb (h16 (fst ia) hm =? 0)
+                 end
+             end)
+          (walk weights (walk_start (tip_id mine) (tip_id peer)) 0).
+
+Definition hash_determines_id_b (mine peer : chain) : bool :=
+  forallb (fun m => forallb (fun p => negb (snd m =? snd p) || (fst m =? fst p)) peer) mine.
